@@ -610,7 +610,7 @@ class MinMaxAggregator:
 
         preds = [
             x.pred
-            for x in set(chain.from_iterable(predicates(b, {Sign.NoSign, Sign.DoubleNegation}) for b in stm.body))
+            for x in set(chain.from_iterable(predicates(b, {Sign.NoSign}) for b in stm.body))
         ]
         minmaxpred: Optional[MinMaxAggregator.MinMaxPred] = None
         for aggtype, translation, idx in self._minmax_preds:
@@ -681,7 +681,7 @@ class MinMaxAggregator:
         """
         preds = [
             x.pred
-            for x in set(chain.from_iterable(predicates(b, {Sign.NoSign, Sign.DoubleNegation}) for b in elem.condition))
+            for x in set(chain.from_iterable(predicates(b, {Sign.NoSign}) for b in elem.condition))
         ]
         rest_cond: list[AST] = []
         minmaxpred: Optional[MinMaxAggregator.MinMaxPred] = None
